@@ -275,9 +275,17 @@ static inline long px_carved(px_t *x, int *npages)
 
 /* every carved block is live or free exactly once.  `strict_lost`: also
  * require that none is unreachable. */
+/* context (e.g. the operation history so far) appended to the messages */
+static const char *px_context = "";
+
 static inline void px_check_structure(px_t *x, const char *when)
 {
     static px_set s;
+    static char whenbuf[200];
+    if (px_context[0]) {
+        snprintf(whenbuf, sizeof(whenbuf), "%s [%s]", when, px_context);
+        when = whenbuf;
+    }
     s.n = 0;
     const size_t N = (size_t)x->P.nper;
     for (int i = 0; i < x->P.nlocal; i++) {
